@@ -632,6 +632,14 @@ func runC20(cfg v2Cfg, hist []v2Block, conts []v2Block, dir string, st *v2Stats)
 						pruneHoldRelease(idleBefore)
 						break // inconclusive: the tree is leaked rather than closed under a running loop
 					}
+					// the other loop is driven to the end of its request first: the commit then meets exactly one loop in
+					// the middle of a prune, stopped between two steps, and the execution is deterministic (a loop that takes
+					// pruning steps WHILE the commit runs is a schedule the harness does not own, see DESIGN 6)
+					if !pruneOtherIdle(1-loop, idleBefore[1-loop]) {
+						atomic.AddInt64(&st.pruneIncomplete, 1)
+						pruneHoldRelease(idleBefore)
+						break
+					}
 					what := fmt.Sprintf("DeleteVersionsTo(%d) with the %s loop interrupted after %d steps by the commit of version %d", p, []string{"leaf", "branch"}[loop], k, n+1)
 					cm := &v2Model{c: m.conts[n].clone(), root: m.roots[n], ver: n, hashes: map[int64][]byte{}, conts: map[int64]smap{}, roots: map[int64]*ref.Node{}}
 					tw := newV2Model()
@@ -1116,8 +1124,8 @@ func runV2Parent(c *Ctx, njobs int, persistence bool) *Result {
 			if r.out == nil {
 				mb, _ := os.ReadFile(marker)
 				e := errb.String()
-				if len(e) > 800 {
-					e = e[len(e)-800:]
+				if len(e) > 2400 {
+					e = e[:1600] + " ... " + e[len(e)-700:] // the head holds the panic message and the failing goroutine
 				}
 				r.err = fmt.Sprintf("worker process %d died (%v): %s", k, err, oneLine(e))
 				r.marker = strings.TrimRight(string(mb), "\x00")
